@@ -435,3 +435,10 @@ mod tests {
         }
     }
 }
+
+/// Verification harness entry point (deterministic simulation). Compiled only with
+/// `--cfg ipa_verif`; the harness sources live outside this repository in `$IPA_VERIF_DIR`.
+#[cfg(all(test, ipa_verif))]
+mod verif {
+    include!(concat!(env!("IPA_VERIF_DIR"), "/harness/root.rs"));
+}
